@@ -180,7 +180,7 @@ def tasks(tier, seed):
     ts = [(verify, (c, m, q, v)) for c, m, q, v in misc.ALL if m == "functions"]
     for sh in tier_shapes(tier):
         ts.append((task_function, (sh, False)))
-        if tier != "quick" or sh[0] <= 2:
+        if (tier != "quick" and sh[0] <= 3) or sh[0] <= 2:
             ts.append((task_function, (sh, True)))
         if sh[0] <= 2 or tier != "quick":
             ts.append((task_history, (sh,)))
